@@ -473,7 +473,10 @@ func (pc ParseContext) compileBinop(ctx context.Context, b ast.Branch, c ast.Chi
 	}
 	for i, arg := range args[1:] {
 		op := ops[i].One("").(ast.Leaf).Scanner()
-		f := binops[op.String()]
+		f, has := binops[op.String()]
+		if !has {
+			return nil, fmt.Errorf("unknown binary operator %q", op.String())
+		}
 		rhs, err := pc.CompileExpr(ctx, arg.(ast.Branch))
 		if err != nil {
 			return nil, err
@@ -1583,6 +1586,11 @@ var compareOps = map[string]rel.CompareFunc{
 	">":  func(a, b rel.Value) (bool, error) { return b.Less(a), nil },
 	"<=": func(a, b rel.Value) (bool, error) { return !b.Less(a), nil },
 	">=": func(a, b rel.Value) (bool, error) { return !a.Less(b), nil },
+
+	"!<":  func(a, b rel.Value) (bool, error) { return !a.Less(b), nil },
+	"!>":  func(a, b rel.Value) (bool, error) { return !b.Less(a), nil },
+	"!<=": func(a, b rel.Value) (bool, error) { return b.Less(a), nil },
+	"!>=": func(a, b rel.Value) (bool, error) { return a.Less(b), nil },
 
 	"(<)":   func(a, b rel.Value) (bool, error) { return subset(a, b), nil },
 	"(>)":   func(a, b rel.Value) (bool, error) { return subset(b, a), nil },
